@@ -52,6 +52,12 @@ def partials(w, depth=0):
                 for p in ps[:3]:
                     out.append([cp(p)] + cp(w))
                     out.append(cp(w) + [cp(p)])
+                    # ... and next to an element that is itself only partially given (the whole
+                    # value then conforms nowhere, so no window is "the" right one)
+                    d = cp(w)
+                    d[j] = cp(p)
+                    out.append([cp(p)] + d)
+                    out.append(d + [cp(p)])
                     if isinstance(x, dict):
                         # ... and next to a full element carrying an extra key: under a relaxed
                         # member schema only the partial one can be substituted
